@@ -101,6 +101,19 @@ def holder():
 
 hdec = holder()
 ''',
+    "rfun": '''
+def rmaker():
+    def rfun(x):
+        a = x + {K}
+        if x < 0:
+            return rfun(0)  # the closure refers to itself
+        return a
+
+    return rfun
+
+
+rfun = rmaker()
+''',
     "dec": '''
 @rec
 def dec(x):
@@ -124,7 +137,7 @@ def rec(fn):
     return wrapper
 '''
 
-TARGETS = ["top", "meth", "om", "inner", "leaf", "dec", "maker", "deep", "ctop", "hdec"]  # ctop/hdec share their bare names with top/dec
+TARGETS = ["top", "meth", "om", "inner", "leaf", "dec", "maker", "deep", "ctop", "hdec", "rfun"]  # ctop/hdec share their bare names with top/dec
 PROBE_ONLY = {"maker", "deep"}  # calling them again would create a second live closure
 
 _DIR = None
@@ -181,7 +194,7 @@ class World:
 
     def _has(self, t):
         return {"top": "top", "meth": "Outer", "om": "Outer", "inner": "inner", "leaf": "leaf", "dec": "dec",
-                "maker": "maker", "deep": "deep", "ctop": "Coll", "hdec": "hdec"}[t] in vars(self.mod)
+                "maker": "maker", "deep": "deep", "ctop": "Coll", "hdec": "hdec", "rfun": "rfun"}[t] in vars(self.mod)
 
     def real(self, t):
         """The function object created by the def."""
@@ -189,7 +202,7 @@ class World:
         return {"top": lambda: m.top, "meth": lambda: m.Outer.Inner.meth, "om": lambda: m.Outer.om,
                 "inner": lambda: m.inner, "leaf": lambda: m.leaf, "dec": lambda: m.REG["dec"],
                 "maker": lambda: m.maker, "deep": lambda: m.deep, "ctop": lambda: m.Coll.top,
-                "hdec": lambda: m.hdec}[t]()
+                "hdec": lambda: m.hdec, "rfun": lambda: m.rfun}[t]()
 
     def handle(self, t):
         """What a user would pass to refstring()."""
@@ -197,12 +210,12 @@ class World:
         return {"top": lambda: m.top, "meth": lambda: m.Outer.Inner.meth, "om": lambda: m.Outer.om,
                 "inner": lambda: m.inner, "leaf": lambda: m.leaf, "dec": lambda: m.dec,
                 "maker": lambda: m.maker, "deep": lambda: m.deep, "ctop": lambda: m.Coll.top,
-                "hdec": lambda: m.hdec}[t]()
+                "hdec": lambda: m.hdec, "rfun": lambda: m.rfun}[t]()
 
     def name_selector(self, t):
         return {"top": "top > a", "meth": "Outer.Inner.meth > a", "om": "Outer.om > a", "inner": "inner > a",
                 "leaf": "leaf > a", "dec": "dec > a", "maker": "maker > a", "deep": "deep > a",
-                "ctop": "Coll.top > a", "hdec": "hdec > a"}[t]
+                "ctop": "Coll.top > a", "hdec": "hdec > a", "rfun": "rfun > a"}[t]
 
     def call(self, t, x):
         m = self.mod
@@ -256,7 +269,20 @@ def run_case(order, ks, ops, regime, rec=None):
             pin()
             if kind == "act":
                 how = op[2]
-                sel = world.name_selector(t) if how == "name" else refs[t] + " > a"
+                if how.startswith("anc"):
+                    # t is instrumented only as the enclosing call of a path (no capture of its
+                    # own); the path never matches at run time: the probe expects no event
+                    u = op[3]
+                    if u == t or not world.has(u):
+                        done.pop()
+                        continue
+                    if how == "anc-name":
+                        sel = world.name_selector(t)[:-4] + " > " + world.name_selector(u)
+                    else:
+                        sel = refs[t] + " > " + refs[u] + " > a"
+                    flags.add("ancestor-only")
+                else:
+                    sel = world.name_selector(t) if how == "name" else refs[t] + " > a"
                 others = [s for s in stack if s[0] == t]
                 if how == "ref" and others:
                     flags.add("ref-activation-while-probed")
@@ -268,7 +294,7 @@ def run_case(order, ks, ops, regime, rec=None):
                     raise PropertyViolation(
                         "activate", f"activating {sel!r} raised {HY.describe_exc(e)}\n{ctxt()}",
                         extra={"bucket": "activate:" + how + ":" + type(e).__name__})
-                stack.append((t, how, p, sink, []))
+                stack.append((("anc:" + t) if how.startswith("anc") else t, how, p, sink, []))
             elif kind == "deact":
                 if stack:
                     _, _, p, _, _ = stack.pop()
@@ -288,7 +314,7 @@ def run_case(order, ks, ops, regime, rec=None):
                 if got != want:
                     raise PropertyViolation("call", f"{t}({x}) returned {got}, expected {want}\n{ctxt()}")
             elif kind == "resolve":
-                if any(s[0] == t for s in stack):
+                if any(s[0] in (t, "anc:" + t) for s in stack):
                     flags.add("resolve-while-probed")
                 try:
                     sel = ptera.select(refs[t] + " > a", env={})
@@ -359,6 +385,7 @@ def strategy(max_ops):
     tgt = st.sampled_from(TARGETS)
     op = st.one_of(
         st.tuples(st.just("act"), tgt, st.sampled_from(["name", "ref", "ref"])),
+        st.tuples(st.just("act"), tgt, st.sampled_from(["anc-name", "anc-ref"]), tgt),
         st.tuples(st.just("deact")),
         st.tuples(st.just("call"), tgt, st.integers(0, 9)),
         st.tuples(st.just("call"), tgt, st.integers(0, 9)),
@@ -370,12 +397,12 @@ def strategy(max_ops):
     def cases(draw):
         order = draw(st.permutations(sorted(BLOCKS)))
         order = list(order)[: draw(st.integers(2, len(order)))]
-        ks = {t: draw(st.integers(1, 40)) * 20 + i for i, t in enumerate(["top", "meth", "om", "inner", "leaf", "dec", "ctop", "hdec"])}
+        ks = {t: draw(st.integers(1, 40)) * 20 + i for i, t in enumerate(["top", "meth", "om", "inner", "leaf", "dec", "ctop", "hdec", "rfun"])}
         # bias: operate mostly on one or two targets so that probes overlap
         focus = draw(st.one_of(
             st.lists(tgt, min_size=1, max_size=2),
             st.sampled_from([["inner", "maker"], ["leaf", "deep"], ["meth", "om"], ["leaf", "deep", "maker"],
-                             ["top", "ctop"], ["dec", "hdec"]]),
+                             ["top", "ctop"], ["dec", "hdec"], ["rfun"]]),
         ))
         ops = draw(st.lists(op, min_size=3, max_size=max_ops))
         ops = [(o[0], focus[hash(o) % len(focus)], *o[2:]) if len(o) > 1 and draw(st.integers(0, 2)) else o for o in ops]
